@@ -355,6 +355,100 @@ func runC02(o *Out, r *rand.Rand) {
 	for i := 0; i < nm; i++ {
 		c02Multi(o, r)
 	}
+	c02Gzip(o, r)
+}
+
+// c02Gzip: frames whose payload section is a REAL gzip stream (the Lean side has no gzip: direct oracle
+// only).  A frame whose lengths are all consistent but whose gzip stream is damaged (a flipped bit in
+// the trailer or in the deflate data, a stream cut short inside a correctly delimited section) is
+// an error – and must leave nothing behind: the valid frames decoded after it, with fresh and with
+// reused message objects, yield exactly the bytes their own payload sections inflate to.
+func c02Gzip(o *Out, r *rand.Rand) {
+	rounds := 40
+	if thorough() {
+		rounds = 400
+	}
+	mk := func(plain []byte) []byte {
+		m := protocol.NewMessage()
+		m.SetMessageType(protocol.Request)
+		m.SetCompressType(protocol.Gzip)
+		m.SetSeq(uint64(r.Intn(1 << 30)))
+		m.ServicePath, m.ServiceMethod = "Svc", "M"
+		m.Payload = plain
+		return append([]byte(nil), m.Encode()...)
+	}
+	plainOf := func(tag byte, n int) []byte {
+		b := make([]byte, n)
+		for i := range b {
+			b[i] = tag + byte(i%7)
+		}
+		return b
+	}
+	reused := protocol.NewMessage()
+	for round := 0; round < rounds; round++ {
+		// gzip is applied to payloads above 1 KiB only
+		p1 := plainOf(byte('a'+round%20), 1100+r.Intn(3000))
+		f1 := mk(p1)
+		z, ok := payloadSection(f1)
+		if !ok || len(z) < 20 || f1[2]&0x1C == 0 {
+			continue
+		}
+		bad := append([]byte(nil), f1...)
+		zb, _ := payloadSection(bad)
+		how := ""
+		switch r.Intn(3) {
+		case 0: // the CRC32 / ISIZE trailer
+			zb[len(zb)-1-r.Intn(8)] ^= 1 << uint(r.Intn(8))
+			how = "bit flipped in the gzip trailer"
+		case 1: // the deflate data
+			zb[10+r.Intn(len(zb)-18)] ^= 1 << uint(r.Intn(8))
+			how = "bit flipped in the deflate data"
+		default: // the stream ends early although the section is delimited correctly: the tail is overwritten with zeros
+			for i := len(zb) - 8 - r.Intn(len(zb)/2); i < len(zb); i++ {
+				zb[i] = 0
+			}
+			how = "tail of the gzip stream overwritten"
+		}
+		obj := protocol.NewMessage()
+		if r.Intn(2) == 0 {
+			obj = reused
+		}
+		err, pv := decodeOutcome(obj, &chunkReader{chunks: [][]byte{bad}})
+		o.Eval(fmt.Sprintf("gzip damaged %s %d", how, len(p1)), true)
+		o.Count("family.gzip-damaged")
+		rp := map[string]any{"damage": how, "plain_len": len(p1)}
+		if pv != nil {
+			o.Violate("c02.gzip.panic", fmt.Sprintf("Decode of a frame with a damaged gzip payload panicked: %v", pv), rp)
+			return
+		}
+		if err == nil && !bytes.Equal(obj.Payload, p1) {
+			o.Violate("c02.gzip.damaged-accepted", "Decode reported success for a frame whose gzip payload is damaged, with a payload that is not what was compressed", rp)
+			return
+		}
+		// the frames that follow
+		for k := 0; k < 2; k++ {
+			p2 := plainOf(byte('A'+(round+k)%20), 1100+r.Intn(3000))
+			f2 := mk(p2)
+			obj2 := protocol.NewMessage()
+			if k == 1 {
+				obj2 = reused
+			}
+			err2, pv2 := decodeOutcome(obj2, &chunkReader{chunks: [][]byte{f2}})
+			o.Eval(fmt.Sprintf("gzip valid-after-damaged %d %d", k, len(p2)), true)
+			o.Count("family.gzip-after-damaged")
+			rp2 := map[string]any{"earlier_frame": rp, "plain_len": len(p2), "reused_object": k == 1}
+			if pv2 != nil || err2 != nil {
+				o.Violate("c02.gzip.valid-rejected", fmt.Sprintf("a valid gzip frame decoded after a damaged one failed: %v %v", err2, pv2), rp2)
+				return
+			}
+			if !bytes.Equal(obj2.Payload, p2) {
+				rp2["got_len"] = len(obj2.Payload)
+				rp2["starts_with_earlier_frames_plaintext"] = bytes.HasPrefix(obj2.Payload, p1[:16])
+				o.Violate("c02.gzip.bytes-from-another-frame", fmt.Sprintf("a valid gzip frame decoded after a damaged one yields %d payload bytes instead of the %d its own payload section inflates to", len(obj2.Payload), len(p2)), rp2)
+				return
+			}
+		}
+	}
 }
 
 // A frame whose total length leaves slack after the declared payload: the property allows
